@@ -126,7 +126,7 @@ def generate(rs: int, tier: str, index: int) -> dict:
             # dense operands: every monomial up to a degree, 66-84 terms in all (a score accumulated over the terms must
             # not run out of bits), differing in one high-ranking and one low-ranking coefficient
             cd = ch.sub("dense")
-            dnames = names[:2] if len(names) >= 2 and cd.chance(0.6) else (names + ["q12", "q13"])[:3]
+            dnames = names[:2] if len(names) >= 2 and cd.chance(0.6) else (names + [n for n in ["q12", "q13", "q14"] if n not in names])[:3]
             nvd = len(dnames)
             top = 10 if nvd == 2 else 6
             import itertools
